@@ -276,6 +276,7 @@ pub fn shrink_case(case: &ParseCase) -> Vec<ParseCase> {
     let mut out = vec![];
     let with = |f: &dyn Fn(&mut ParseCase)| {
         let mut c = case.clone();
+        c.spans = vec![]; // statistics only; keeps the candidates cheap
         f(&mut c);
         c
     };
@@ -345,15 +346,29 @@ pub fn shrink_case(case: &ParseCase) -> Vec<ParseCase> {
         }
     }
     if starts.len() > 1 {
-        for li in (0..starts.len()).rev() {
-            let s = starts[li];
-            let e = starts.get(li + 1).copied().unwrap_or(case.doc.len());
-            out.push(with(&|c| {
-                c.doc.drain(s..e);
-                if let Some(k) = c.only_k {
-                    c.only_k = Some(if k >= e { k - (e - s) } else { k.min(s) });
-                }
-            }));
+        // ddmin over lines: remove blocks of n/2, n/4, ... lines; at most ~100 candidates per
+        // round, so that huge documents shrink in a logarithmic number of rounds
+        let nlines = starts.len();
+        let mut block = (nlines / 2).max(1);
+        let mut cands = 0;
+        loop {
+            let mut i = 0;
+            while i < nlines && cands < 100 {
+                let s = starts[i];
+                let e = starts.get(i + block).copied().unwrap_or(case.doc.len());
+                out.push(with(&|c| {
+                    c.doc.drain(s..e);
+                    if let Some(k) = c.only_k {
+                        c.only_k = Some(if k >= e { k - (e - s) } else { k.min(s) });
+                    }
+                }));
+                cands += 1;
+                i += block;
+            }
+            if block == 1 || cands >= 100 {
+                break;
+            }
+            block /= 2;
         }
     }
     if case.doc.len() > 1 {
